@@ -21,7 +21,7 @@ func init() {
 		rng := rand.New(rand.NewSource(seed*104729 + 2))
 		n := 360
 		if tier == "thorough" {
-			n = 12000
+			n = 40000
 		}
 		for i := 0; i < n; i++ {
 			cfg := pickCfg(rng)
@@ -146,6 +146,7 @@ func famMeta(w *World, c *Case, rng *rand.Rand) {
 	w.CheckDelivery()
 	w.CheckOutcome()
 	w.CheckTables(w.TCh, 0, 0, true, "after all RPCs finished")
+	w.CheckIdle("after all RPCs finished")
 	w.Stat("rpcs", k)
 	w.Finish()
 }
